@@ -72,6 +72,29 @@ class Graph:
         self.files = []
         self.ns = {"__vf": vf}   # one shared globals dict, like a user's module
         self.log = []
+        # on-demand registrations: performed on the real function during the real call (log of ok / refused), then
+        # replayed at the same point of the reference interpretation
+        self._cur = None
+        self._od_real, self._od_model = set(), set()
+        self._od_log, self._od_replay = [], []
+        vf.ondemand = self._ondemand_real
+        self.ondemand_applied = 0
+
+    def _ondemand_real(self, mid):
+        if mid in self._od_real or self._cur is None:
+            return
+        self._od_real.add(mid)
+        n, ms = self._cur, self.mspecs[mid]["extra"]
+        try:
+            fn = self.make(ms, n.id)
+            n.ov.register(fn, priority=ms.get("prio", 0))
+            self._bind_name(n)
+            self._od_log.append("ok")
+            self.ondemand_applied += 1
+        except Exception as e:  # noqa: BLE001
+            if "locked for modifications" not in str(e):
+                raise
+            self._od_log.append("refused")
 
     # ---- method synthesis ----------------------------------------------------------------------
     def make(self, ms, owner_id):
@@ -89,6 +112,10 @@ class Graph:
                         f"    return ['D{mid}'] + inner(x)")
             else:
                 body = f"return ['D{mid}'] + (lambda ys: (lambda: [recurse(y) for y in ys])())(x)"
+        elif kind == "ondemand":
+            # registers one more method on the function being called, the first time it runs, and walks on: the
+            # elements after that point must be resolved in the enlarged function, as by a plain call of it
+            body = f"__vf.ondemand({mid})\n    return ['O{mid}'] + [recurse(e) for e in x]"
         elif kind == "walk_tuple":
             body = f"return ('T{mid}',) + tuple(recurse(e) for e in x)"
         elif kind == "wrap":
@@ -202,6 +229,12 @@ class Graph:
             return [f"N{mid}"] + [self.ev(n, e) for e in v]
         if kind == "walk_list":
             return [f"L{mid}"] + [self.ev(n, e) for e in v]
+        if kind == "ondemand":
+            if mid not in self._od_model:
+                self._od_model.add(mid)
+                if self._od_replay and self._od_replay.pop(0) == "ok":
+                    self._push(self._cur, ms["extra"])
+            return [f"O{mid}"] + [self.ev(n, e) for e in v]
         if kind == "map_list":
             return [f"M{mid}"] + [self.ev(n, e) for e in v]
         if kind == "deep_list":
@@ -217,14 +250,19 @@ class Graph:
         raise ValueError(kind)
 
     def call(self, n, v):
-        """(got, expected) as comparable tuples."""
+        """(got, expected) as comparable tuples.  The real call runs first: registrations that method bodies make
+        on demand are logged and replayed at the same point of the reference interpretation."""
+        self._cur = n
+        self._od_log = []
+        out = outcome(lambda: n.ov(v), self.vf)
+        self._od_replay = list(self._od_log)
         try:
             exp = ("ok", self.ev(n, v))
         except LookupError:
             exp = ("none",)
         except (KeyError, TypeError):
             exp = ("bodyerr",)
-        out = outcome(lambda: n.ov(v), self.vf)
+        self._cur = None
         if out[0] == "ran":
             got = ("ok", out[2])
         elif out[0] in ("none", "bind"):
